@@ -187,6 +187,10 @@ class Interp(object):
                 if hv is not None:
                     return [('val', hv, st)]
             return [('val', ModV(External(b.mod.dotted + '.' + attr)), st)]
+        if isinstance(b, Const) and isinstance(b.value, dict) and attr == 'get':
+            return [('val', prims.ConstDictGet(b.value), st)]
+        if isinstance(b, Const) and b.value is None and not attr.startswith('__'):
+            return [('raise', Opaque("AttributeError('NoneType' object has no attribute %r)" % attr), st)]
         if isinstance(b, Const) and isinstance(b.value, (str, bytes)) and attr in prims.ConstMethod.SAFE:
             return [('val', prims.ConstMethod(b.value, attr), st)]
         if isinstance(b, Const) and attr == 'packed':
